@@ -53,3 +53,9 @@ UNITS.append(Unit('back.favor_compile_time.dispatch_table.construct', ['C01', 'C
             '{ chain_row_t* const tofill = 0;\n'
             '  if (g_deferred[State]) { if (g_composite[State]) {@5} else {@4} } else if (g_composite[State]) { if (g_state_is_fsm[State]) {@6} else {@7} } else {@8} }',
     file_scope='typedef int chain_row_t;\n', force_loop_contracts=True, cbmc_flags=['--object-bits', '12'], replay=['sel']))
+
+UNITS.append(Unit('back.favor_compile_time.dispatch_table.ctor_order', ['C01', 'C07', 'C13'], 'back',
+    Part(FCT, DT, 'dispatch_table ( )', xform=back_xform([], refparams=(), pre_rewrites=[
+        dict(name='FOREACH-rows', pat='for_each < filter_view < Stt , is_base_of < transition_event < _ > , Event > > > ( init_cell ( this ) ) ;', rep='rows_phase ( ) ;', min=0, max=1),
+        dict(name='FOREACH-states', pat='for_each < typename generate_state_set < Stt > :: type , wrap < _1 > > ( default_init_cell < Event > ( this , entries ) ) ;', rep='states_phase ( ) ;', min=0, max=1)])),
+    'void fct_ctor(void)', 'fct_table.spec.h', defines=['UNIT_FCT_CTOR=1'], replay=['sel']))
